@@ -101,9 +101,11 @@ Record algo := { a_spec : bool; a_np : nat; a_nf : nat;
                  a_fed : list (nat * nat);          (* ghost: (study, trial id) in the order they were fed back *)
                  e_pending : list dna; e_init : bool; e_pop : list dna; e_gen : nat; e_lockgen : nat;
                  ig_np : nat; ig_nf : nat; e_setups : nat;
-                 a_fit : list (nat * Z) }.         (* proposal id -> fitness stored in the DNA's metadata by Evolution._feedback *)
+                 a_fit : list (nat * Z);
+                 a_nset : nat;      (* ghost: how often the DNASpec was stored (setup started) *)
+                 a_win : bool }.    (* ghost: a setup has started and its counter resets are not both done *)         (* proposal id -> fitness stored in the DNA's metadata by Evolution._feedback *)
 Definition algo0 := {| a_spec := false; a_np := 0; a_nf := 0; a_fed := []; e_pending := []; e_init := false; e_pop := []; e_gen := 0;
-                       e_lockgen := 0; ig_np := 0; ig_nf := 0; e_setups := 0; a_fit := [] |}.
+                       e_lockgen := 0; ig_np := 0; ig_nf := 0; e_setups := 0; a_fit := []; a_nset := 0; a_win := false |}.
 
 (* studies are addressed by creation number; [nstudies] of them have been created so far (the others are pristine) *)
 Record gstate := { studies : nat -> study; nstudies : nat; registry : option nat; alg : algo; locks : lockid -> option nat }.
@@ -119,6 +121,11 @@ Record ghost := { g_reg : bool;            (* created a study that is not yet re
                   g_best : bool }.         (* the completed trial has still to be compared with the best trial *)
 Definition ghost0 := {| g_reg := false; g_ip := 0%Z; g_lat := None; g_own := None; g_cc := 0%Z; g_dp := 0%Z; g_infd := 0%Z; g_fb := false; g_best := false |}.
 
+(* ghost, about the algorithm: *)
+Record ghost2 := { g_rnp : bool; g_rnf : bool;   (* has stored the DNASpec (setup started) and still owes `_num_proposals = 0` / `_num_feedbacks = 0` *)
+                   g_np : Z }.                   (* proposals counted by the algorithm whose trial is not yet appended *)
+Definition ghost20 := {| g_rnp := false; g_rnf := false; g_np := 0%Z |}.
+
 Record tstate := { pc : option (nat * nat);               (* None: the worker has finished *)
                    script : list uop;
                    held : list (lockref * lockid);
@@ -126,7 +133,7 @@ Record tstate := { pc : option (nat * nat);               (* None: the worker ha
                    r_trial : option nat; r_cur : option nat; r_id : nat; r_dna : dna; r_ret : bool;
                    r_reward : option Z; r_arg : Z; r_best : option nat;
                    (* ghost: what this thread has changed in the study but not yet accounted for (never read by the code) *)
-                   gh : ghost }.
+                   gh : ghost; gh2 : ghost2 }.
 
 Record cfg := { c_max : option nat; c_evo : bool; c_needs_fb : bool; c_pop : nat; c_policy : bool; c_stop : list nat }.
 
@@ -212,54 +219,57 @@ Definition st_full (b : bool) (st : study) : study :=
 
 Definition al_base (sp : bool) (np nf : nat) (fed : list (nat * nat)) (a : algo) : algo :=
   {| a_spec := sp; a_np := np; a_nf := nf; a_fed := fed; e_pending := e_pending a; e_init := e_init a; e_pop := e_pop a; e_gen := e_gen a;
-     e_lockgen := e_lockgen a; ig_np := ig_np a; ig_nf := ig_nf a; e_setups := e_setups a; a_fit := a_fit a |}.
+     e_lockgen := e_lockgen a; ig_np := ig_np a; ig_nf := ig_nf a; e_setups := e_setups a; a_fit := a_fit a; a_nset := a_nset a; a_win := a_win a |}.
 Definition al_evo (pend : list dna) (ini : bool) (pop : list dna) (gen : nat) (a : algo) : algo :=
   {| a_spec := a_spec a; a_np := a_np a; a_nf := a_nf a; a_fed := a_fed a; e_pending := pend; e_init := ini; e_pop := pop; e_gen := gen;
-     e_lockgen := e_lockgen a; ig_np := ig_np a; ig_nf := ig_nf a; e_setups := e_setups a; a_fit := a_fit a |}.
+     e_lockgen := e_lockgen a; ig_np := ig_np a; ig_nf := ig_nf a; e_setups := e_setups a; a_fit := a_fit a; a_nset := a_nset a; a_win := a_win a |}.
 Definition al_misc (lockgen np nf setups : nat) (a : algo) : algo :=
   {| a_spec := a_spec a; a_np := a_np a; a_nf := a_nf a; a_fed := a_fed a; e_pending := e_pending a; e_init := e_init a; e_pop := e_pop a; e_gen := e_gen a;
-     e_lockgen := lockgen; ig_np := np; ig_nf := nf; e_setups := setups; a_fit := a_fit a |}.
+     e_lockgen := lockgen; ig_np := np; ig_nf := nf; e_setups := setups; a_fit := a_fit a; a_nset := a_nset a; a_win := a_win a |}.
 Definition al_fit (f : list (nat * Z)) (a : algo) : algo :=
   {| a_spec := a_spec a; a_np := a_np a; a_nf := a_nf a; a_fed := a_fed a; e_pending := e_pending a; e_init := e_init a; e_pop := e_pop a; e_gen := e_gen a;
-     e_lockgen := e_lockgen a; ig_np := ig_np a; ig_nf := ig_nf a; e_setups := e_setups a; a_fit := f |}.
+     e_lockgen := e_lockgen a; ig_np := ig_np a; ig_nf := ig_nf a; e_setups := e_setups a; a_fit := f; a_nset := a_nset a; a_win := a_win a |}.
+Definition al_win (n : nat) (w : bool) (a : algo) : algo :=
+  {| a_spec := a_spec a; a_np := a_np a; a_nf := a_nf a; a_fed := a_fed a; e_pending := e_pending a; e_init := e_init a; e_pop := e_pop a; e_gen := e_gen a;
+     e_lockgen := e_lockgen a; ig_np := ig_np a; ig_nf := ig_nf a; e_setups := e_setups a; a_fit := a_fit a; a_nset := n; a_win := w |}.
 
 Definition th_pc (p : option (nat * nat)) (th : tstate) : tstate :=
   {| pc := p; script := script th; held := held th; r_study := r_study th; r_group := r_group th; r_gnone := r_gnone th; r_trial := r_trial th;
-     r_cur := r_cur th; r_id := r_id th; r_dna := r_dna th; r_ret := r_ret th; r_reward := r_reward th; r_arg := r_arg th; r_best := r_best th; gh := gh th |}.
+     r_cur := r_cur th; r_id := r_id th; r_dna := r_dna th; r_ret := r_ret th; r_reward := r_reward th; r_arg := r_arg th; r_best := r_best th; gh := gh th; gh2 := gh2 th |}.
 Definition th_held (h : list (lockref * lockid)) (th : tstate) : tstate :=
   {| pc := pc th; script := script th; held := h; r_study := r_study th; r_group := r_group th; r_gnone := r_gnone th; r_trial := r_trial th;
-     r_cur := r_cur th; r_id := r_id th; r_dna := r_dna th; r_ret := r_ret th; r_reward := r_reward th; r_arg := r_arg th; r_best := r_best th; gh := gh th |}.
+     r_cur := r_cur th; r_id := r_id th; r_dna := r_dna th; r_ret := r_ret th; r_reward := r_reward th; r_arg := r_arg th; r_best := r_best th; gh := gh th; gh2 := gh2 th |}.
 Definition th_script (s : list uop) (arg : Z) (th : tstate) : tstate :=
   {| pc := pc th; script := s; held := held th; r_study := r_study th; r_group := r_group th; r_gnone := r_gnone th; r_trial := r_trial th;
-     r_cur := r_cur th; r_id := r_id th; r_dna := r_dna th; r_ret := r_ret th; r_reward := r_reward th; r_arg := arg; r_best := r_best th; gh := gh th |}.
+     r_cur := r_cur th; r_id := r_id th; r_dna := r_dna th; r_ret := r_ret th; r_reward := r_reward th; r_arg := arg; r_best := r_best th; gh := gh th; gh2 := gh2 th |}.
 Definition th_study (s : nat) (th : tstate) : tstate :=
   {| pc := pc th; script := script th; held := held th; r_study := s; r_group := r_group th; r_gnone := r_gnone th; r_trial := r_trial th;
-     r_cur := r_cur th; r_id := r_id th; r_dna := r_dna th; r_ret := r_ret th; r_reward := r_reward th; r_arg := r_arg th; r_best := r_best th; gh := gh th |}.
+     r_cur := r_cur th; r_id := r_id th; r_dna := r_dna th; r_ret := r_ret th; r_reward := r_reward th; r_arg := r_arg th; r_best := r_best th; gh := gh th; gh2 := gh2 th |}.
 Definition th_trial (o : option nat) (th : tstate) : tstate :=
   {| pc := pc th; script := script th; held := held th; r_study := r_study th; r_group := r_group th; r_gnone := r_gnone th; r_trial := o;
-     r_cur := r_cur th; r_id := r_id th; r_dna := r_dna th; r_ret := r_ret th; r_reward := r_reward th; r_arg := r_arg th; r_best := r_best th; gh := gh th |}.
+     r_cur := r_cur th; r_id := r_id th; r_dna := r_dna th; r_ret := r_ret th; r_reward := r_reward th; r_arg := r_arg th; r_best := r_best th; gh := gh th; gh2 := gh2 th |}.
 Definition th_cur (o : option nat) (th : tstate) : tstate :=
   {| pc := pc th; script := script th; held := held th; r_study := r_study th; r_group := r_group th; r_gnone := r_gnone th; r_trial := r_trial th;
-     r_cur := o; r_id := r_id th; r_dna := r_dna th; r_ret := r_ret th; r_reward := r_reward th; r_arg := r_arg th; r_best := r_best th; gh := gh th |}.
+     r_cur := o; r_id := r_id th; r_dna := r_dna th; r_ret := r_ret th; r_reward := r_reward th; r_arg := r_arg th; r_best := r_best th; gh := gh th; gh2 := gh2 th |}.
 Definition th_id (n : nat) (th : tstate) : tstate :=
   {| pc := pc th; script := script th; held := held th; r_study := r_study th; r_group := r_group th; r_gnone := r_gnone th; r_trial := r_trial th;
-     r_cur := r_cur th; r_id := n; r_dna := r_dna th; r_ret := r_ret th; r_reward := r_reward th; r_arg := r_arg th; r_best := r_best th; gh := gh th |}.
+     r_cur := r_cur th; r_id := n; r_dna := r_dna th; r_ret := r_ret th; r_reward := r_reward th; r_arg := r_arg th; r_best := r_best th; gh := gh th; gh2 := gh2 th |}.
 Definition th_dna (d : dna) (th : tstate) : tstate :=
   {| pc := pc th; script := script th; held := held th; r_study := r_study th; r_group := r_group th; r_gnone := r_gnone th; r_trial := r_trial th;
-     r_cur := r_cur th; r_id := r_id th; r_dna := d; r_ret := r_ret th; r_reward := r_reward th; r_arg := r_arg th; r_best := r_best th; gh := gh th |}.
+     r_cur := r_cur th; r_id := r_id th; r_dna := d; r_ret := r_ret th; r_reward := r_reward th; r_arg := r_arg th; r_best := r_best th; gh := gh th; gh2 := gh2 th |}.
 Definition th_ret (b : bool) (th : tstate) : tstate :=
   {| pc := pc th; script := script th; held := held th; r_study := r_study th; r_group := r_group th; r_gnone := r_gnone th; r_trial := r_trial th;
-     r_cur := r_cur th; r_id := r_id th; r_dna := r_dna th; r_ret := b; r_reward := r_reward th; r_arg := r_arg th; r_best := r_best th; gh := gh th |}.
+     r_cur := r_cur th; r_id := r_id th; r_dna := r_dna th; r_ret := b; r_reward := r_reward th; r_arg := r_arg th; r_best := r_best th; gh := gh th; gh2 := gh2 th |}.
 Definition th_reward (r : option Z) (th : tstate) : tstate :=
   {| pc := pc th; script := script th; held := held th; r_study := r_study th; r_group := r_group th; r_gnone := r_gnone th; r_trial := r_trial th;
-     r_cur := r_cur th; r_id := r_id th; r_dna := r_dna th; r_ret := r_ret th; r_reward := r; r_arg := r_arg th; r_best := r_best th; gh := gh th |}.
+     r_cur := r_cur th; r_id := r_id th; r_dna := r_dna th; r_ret := r_ret th; r_reward := r; r_arg := r_arg th; r_best := r_best th; gh := gh th; gh2 := gh2 th |}.
 Definition th_best (o : option nat) (th : tstate) : tstate :=
   {| pc := pc th; script := script th; held := held th; r_study := r_study th; r_group := r_group th; r_gnone := r_gnone th; r_trial := r_trial th;
-     r_cur := r_cur th; r_id := r_id th; r_dna := r_dna th; r_ret := r_ret th; r_reward := r_reward th; r_arg := r_arg th; r_best := o; gh := gh th |}.
+     r_cur := r_cur th; r_id := r_id th; r_dna := r_dna th; r_ret := r_ret th; r_reward := r_reward th; r_arg := r_arg th; r_best := o; gh := gh th; gh2 := gh2 th |}.
 
 Definition th_gh (x : ghost) (th : tstate) : tstate :=
   {| pc := pc th; script := script th; held := held th; r_study := r_study th; r_group := r_group th; r_gnone := r_gnone th; r_trial := r_trial th;
-     r_cur := r_cur th; r_id := r_id th; r_dna := r_dna th; r_ret := r_ret th; r_reward := r_reward th; r_arg := r_arg th; r_best := r_best th; gh := x |}.
+     r_cur := r_cur th; r_id := r_id th; r_dna := r_dna th; r_ret := r_ret th; r_reward := r_reward th; r_arg := r_arg th; r_best := r_best th; gh := x; gh2 := gh2 th |}.
 
 Definition gh_mk (x : ghost) (reg : bool) (ip : Z) (lat own : option nat) (cc dp infd : Z) (fb best : bool) : ghost :=
   {| g_reg := reg; g_ip := ip; g_lat := lat; g_own := own; g_cc := cc; g_dp := dp; g_infd := infd; g_fb := fb; g_best := best |}.
@@ -275,6 +285,10 @@ Definition gh_dp (x : ghost) := gh_mk x (g_reg x) (g_ip x) (g_lat x) (g_own x) (
 Definition gh_infc (x : ghost) := gh_mk x (g_reg x) (g_ip x) (g_lat x) (g_own x) (g_cc x) (g_dp x) (g_infd x - 1)%Z (g_fb x) (g_best x).
 Definition gh_bestdone (x : ghost) := gh_mk x (g_reg x) (g_ip x) (g_lat x) (g_own x) (g_cc x) (g_dp x) (g_infd x) (g_fb x) false.
 Definition ghu (f : ghost -> ghost) (th : tstate) : tstate := th_gh (f (gh th)) th.
+Definition th_gh2 (x : ghost2) (th : tstate) : tstate :=
+  {| pc := pc th; script := script th; held := held th; r_study := r_study th; r_group := r_group th; r_gnone := r_gnone th; r_trial := r_trial th;
+     r_cur := r_cur th; r_id := r_id th; r_dna := r_dna th; r_ret := r_ret th; r_reward := r_reward th; r_arg := r_arg th; r_best := r_best th; gh := gh th; gh2 := x |}.
+Definition g2u (rnp rnf : bool) (np : Z) (th : tstate) : tstate := th_gh2 {| g_rnp := rnp; g_rnf := rnf; g_np := np |} th.
 
 Definition lastn {A} (n : nat) (l : list A) : list A := skipn (length l - n) l.
 Definition last_opt (l : list Z) : option Z := match rev l with [] => None | x :: _ => Some x end.
@@ -390,9 +404,9 @@ Definition muts (c : cfg) (me : nat) (e : effect) (g : gstate) (th : tstate) : l
   | ESetInf => match r_cur th, otrial st (r_cur th) with Some i, Some x => if t_inf x then [] else [MTrial i TInf] | _, _ => [] end
   | ESetBest => [MBest (r_cur th)]
   | ESetActive b => [MActive b]
-  | ESetSpec => [MAlg (al_base true (a_np a) (a_nf a) (a_fed a) a)]
-  | EResetNP => [MAlg (al_base (a_spec a) 0 (a_nf a) (a_fed a) a)]
-  | EResetNF => [MAlg (al_base (a_spec a) (a_np a) 0 (a_fed a) a)]
+  | ESetSpec => [MAlg (al_win (S (a_nset a)) true (al_base true (a_np a) (a_nf a) (a_fed a) a))]
+  | EResetNP => [MAlg (al_win (a_nset a) (a_win a && g_rnf (gh2 th)) (al_base (a_spec a) 0 (a_nf a) (a_fed a) a))]
+  | EResetNF => [MAlg (al_win (a_nset a) (a_win a && g_rnp (gh2 th)) (al_base (a_spec a) (a_np a) 0 (a_fed a) a))]
   | EIncNP => [MAlg (al_base (a_spec a) (S (a_np a)) (a_nf a) (a_fed a) a)]
   | EIncNF =>
       (* the statement `self._num_feedbacks += 1`; ghost: the trial being reported is recorded *)
@@ -431,7 +445,7 @@ Definition regs (c : cfg) (me : nat) (e : effect) (g : gstate) (th : tstate) : t
   | ELookup => match registry g with Some s' => th_study s' th | None => th end
   | EGetLatest => th_trial (alookup (s_latest st) (r_group th)) th
   | EReadId => th_id (S (length (s_trials st))) th
-  | EAppend => ghu (gh_append (length (s_trials st))) (th_trial (Some (length (s_trials st))) th)
+  | EAppend => g2u (g_rnp (gh2 th)) (g_rnf (gh2 th)) (g_np (gh2 th) - 1)%Z (ghu (gh_append (length (s_trials st))) (th_trial (Some (length (s_trials st))) th))
   | EIncPend => ghu gh_incpend th
   | EDecPend => ghu gh_dp th
   | EIncComp => ghu gh_cc th
@@ -452,6 +466,10 @@ Definition regs (c : cfg) (me : nat) (e : effect) (g : gstate) (th : tstate) : t
   | ESetRet b => th_ret b th
   | EPolicy => th_ret (match otrial st (r_cur th) with Some x => existsb (Nat.eqb (t_id x)) (c_stop c) | None => false end) th
   | EIncNF => ghu gh_fed th
+  | ESetSpec => g2u true true (g_np (gh2 th)) th
+  | EResetNP => g2u false (g_rnf (gh2 th)) (g_np (gh2 th)) th
+  | EResetNF => g2u (g_rnp (gh2 th)) false (g_np (gh2 th)) th
+  | EIncNP => g2u (g_rnp (gh2 th)) (g_rnf (gh2 th)) (g_np (gh2 th) + 1)%Z th
   | ERandPropose => th_dna dna0 th
   | EInitGenPropose => th_dna dna0 th
   | ESetPid => th_dna {| d_pid := S (a_np a); d_init := d_init (r_dna th) |} th
@@ -569,7 +587,8 @@ Definition step_act (c : cfg) (t : nat) (a : act) (p i : nat) (g : gstate) (th :
       Some (note_full cn b g th, goto (if b then S i else S i + off) (note_branch cn b th))
   | Jump off => Some (g, goto (S i + off) th)
   | Throw XStop => Some (g, th_pc None th)
-  | Throw _ => Some (g, to_script None true th)
+  | Throw _ => if Nat.eqb p P_init then Some (g, th_pc None th)        (* an exception in the constructor ends the sampling loop *)
+               else Some (g, to_script None true th)
   | Done => Some (g, to_script (auto_reward c g p th) false th)
   end.
 
@@ -601,7 +620,7 @@ Definition run (ps : progs) (c : cfg) (init : gstate * list tstate) (sched : lis
 
 Definition thread0 (grp : nat) (gnone : bool) (s : list uop) : tstate :=
   {| pc := Some (P_init, 0); script := s; held := []; r_study := 0; r_group := grp; r_gnone := gnone; r_trial := None; r_cur := None;
-     r_id := 0; r_dna := dna0; r_ret := false; r_reward := None; r_arg := 0%Z; r_best := None; gh := ghost0 |}.
+     r_id := 0; r_dna := dna0; r_ret := false; r_reward := None; r_arg := 0%Z; r_best := None; gh := ghost0; gh2 := ghost20 |}.
 
 Definition init_state (c : cfg) (workers : list (nat * bool * list uop)) : gstate * list tstate :=
   (g0 (c_max c), map (fun w => thread0 (fst (fst w)) (snd (fst w)) (snd w)) workers).
